@@ -24,7 +24,7 @@ func init() {
 			"insertion-ordered set keyed by SHA-256; the parent lookup (hook VerifFindVerifiedParents) is called for every (pool, child) at sampled steps and at the end; " +
 			"non-trivial = history with at least one duplicate insertion and a final pool of >= 2 members; distinct by operation string; race leg: concurrent read-only observers on quiescent pools",
 		MinNontrivial:         2000,
-		MinNontrivialThorough: 50000,
+		MinNontrivialThorough: 35000,
 		RaceShards:            2,
 		RacePkgs:              []string{"zcrypto/x509"},
 		Assumptions: []string{
@@ -437,7 +437,7 @@ func runC08(c *core.Ctx) {
 		return
 	}
 	rng := c.Rng
-	n := c.PerShard(c.Pick(6000, 150000))
+	n := c.PerShard(c.Pick(6000, 100000))
 	for h := 0; h < n; h++ {
 		s := &c08State{c: c, u: pki.GenCollisionUniverse(rng), id: fmt.Sprintf("s%d-h%d", c.Shard, h)}
 		ok := true
